@@ -16,7 +16,7 @@ ID = "C10"
 
 ENTRIES = [127250, 65280, 130816, 60928, "vesselHeading", "VESSELHEADING", "furunoHeave", "FurunoHeave",
            "isoAddressClaim", "ISOADDRESSCLAIM", "noSuchId", 99999,
-           "sonichubInit2", "0x1FF000x1FFFFmanufacturerSpecificFastPacketNonAddressed"]   # ids of two fast-packet definitions sharing PGN 130816
+           "sonichubInit2", "0x1FF000x1FFFFmanufacturerSpecificFastPacketNonAddressed", 126464]   # ids of two fast-packet definitions sharing PGN 130816
 
 
 def events():
@@ -38,6 +38,10 @@ def events():
     ev["hdgY"] = ("yd", wire.yd_line(wire.can_id(2, 127250, 2, 255), bytes([7]) + hd[1:]))
     ev["hdgA"] = ("actisense", wire.actisense_line(2, 255, 1, 127250, bytes([8]) + hd[1:]))
     ev["fastA"] = ("actisense", wire.actisense_line(3, 255, 1, 130816, bytes.fromhex("1389550180fe7ffe7f")))
+    # PGN 126464 (0x1EE00, fast packet) differs from the address claim (0x0EE00) in the data-page bit only
+    pl = wire.fast_frames(2, bytes([0]) + (127250).to_bytes(3, "little") + (60928).to_bytes(3, "little"))
+    ev["pl0"] = wire.ebyte_packet(wire.can_id(6, 126464, 2, 255), pl[0])
+    ev["pl1"] = wire.ebyte_packet(wire.can_id(6, 126464, 2, 255), pl[1])
     fr = wire.fast_frames(3, bytes([0x02, 0x00]) + bytes(range(10, 17)))
     ident = wire.can_id(3, 130816, 1, 255)
     ev["f0"] = wire.ebyte_packet(ident, fr[0])
@@ -189,7 +193,7 @@ def run(ctx):
         "rule": "BFS states of (filtered decoder, unfiltered decoder) per configuration; every transition feeds one event to both; "
                 "non-trivial = a state in which a source has claimed or a fast-packet message is partly received",
         "samples": samples, "configurations": len(cfgs), "max_depth": depth,
-        "bound_completed": f"fixed point in every configuration, plus a run of 2200 + 19 x 1100 inputs on one decoder for the empty and single-entry configurations; configurations = exclude/include x all subsets of <= {3 if ctx.thorough else 2} of 14 entries + empty",
+        "bound_completed": f"fixed point in every configuration, plus a run of 2200 + 19 x 1100 inputs on one decoder for the empty and single-entry configurations; configurations = exclude/include x all subsets of <= {3 if ctx.thorough else 2} of 15 entries + empty",
         "exhaustive": closed,
     }
     return {"coverage": cov, "violations": vios,
